@@ -233,3 +233,79 @@ REG.add(Contract(f"{D2R}.convert", module=M_D2R, kind="method", params=dict(self
                           "exists(Node, lambda a: (a in dependencies.all_modules) and has_neg(dependencies, a) and r == rule_neg(dependencies, a))))"],
                  locals=dict(should_rules="Bag[Rule]", should_not_rules="Bag[Rule]"),
                  properties=["C07"]))
+
+# ---------------------------------------------------------------- DiagramRule (C07, C13): builder, configuration check, composition
+# A Rule IS-A RuleApplier: applier_of(record of the rule) is the interface object whose outcome on an evaluable is ra_errors / ra_violated / ra_message.
+_f_applier_of = z3.Function("applier_of", vals.sort_of(("obj", "Rule")), RA)
+REG.specfuns["applier_of"] = lambda eng, st, r: V(("opaque", "RuleApplier"), _f_applier_of(vals.to_term(r)))
+REG.upcasts[(("obj", "Rule"), ("opaque", "RuleApplier"))] = _f_applier_of
+PATH = vals.opaque_sort("Path")
+# the diagram file: its text as read (open(p).read().strip(), library: assumed) and whether that text has a non-empty part between @startuml and @enduml
+_f_puml_text = z3.Function("puml_text", PATH, S)
+_f_puml_tagged = z3.Function("puml_tagged", S, z3.BoolSort())
+REG.specfuns["puml_text"] = lambda eng, st, p: V(("str",), _f_puml_text(p.x))
+REG.specfuns["puml_tagged"] = lambda eng, st, t: vbool(_f_puml_tagged(t.x))
+REG.ctors["PumlParser"] = lambda reg, eng, st, args, kwargs, node: [(st, V(("obj", "PumlParser"), {}))]   # class without __init__, no state
+vals.declare_obj("DiagramRule", dict(_file_path="Opt[Opaque[Path]]", _name_relative_to_root="Opt[Node]", _should_only_rule="Bool"))
+DR = "DiagramRule"
+REG.class_bases[DR] = ["FileRule", "BaseModuleSpecifier", "RuleApplier"]
+_DR_SAME = lambda *changed: [f"self.{f} == old(self).{f}" for f in ("_file_path", "_name_relative_to_root", "_should_only_rule") if f not in changed]
+# the abstract fluent interface (query_language/base_language.py): bodies are 'pass'; the interface promises nothing beyond the types
+M_BL = "pytestarch.query_language.base_language"
+REG.add(Contract("FileRule.from_file", status="abstract", kind="method", params=dict(self="Opaque[FileRule]", file_path="Opaque[Path]"), returns="Opaque[BaseModuleSpecifier]",
+                 note="abstract: sets the file the rules are read from"))
+REG.add(Contract("BaseModuleSpecifier.with_base_module", status="abstract", kind="method", params=dict(self="Opaque[BaseModuleSpecifier]", name_relative_to_root="Node"),
+                 returns="Opaque[RuleApplier]", note="abstract: component names are relative to this module"))
+REG.add(Contract("BaseModuleSpecifier.base_module_included_in_module_names", status="abstract", kind="method", params=dict(self="Opaque[BaseModuleSpecifier]"),
+                 returns="Opaque[RuleApplier]", note="abstract: component names are fully qualified"))
+REG.add(Contract(f"{DR}.__init__", module=M_DR, kind="method", view="string", params=dict(self=DR, should_only_rule="Bool"), defaults=dict(should_only_rule="True"), returns="None",
+                 modifies=["self"], ensures=["is_none(self._file_path)", "is_none(self._name_relative_to_root)", "self._should_only_rule == should_only_rule"],
+                 properties=["C07", "C13"]))
+REG.add(Contract(f"{DR}.from_file", module=M_DR, kind="method", view="string", params=dict(self=DR, file_path="Opaque[Path]"), returns=DR, modifies=["self"],
+                 ensures=["(not is_none(self._file_path)) and unwrap(self._file_path) == file_path", "result == self"] + _DR_SAME("_file_path"),
+                 impl_of="FileRule.from_file", properties=["C07", "C13"]))
+REG.add(Contract(f"{DR}.with_base_module", module=M_DR, kind="method", view="string", params=dict(self=DR, name_relative_to_root="Node"), returns=DR, modifies=["self"],
+                 ensures=["(not is_none(self._name_relative_to_root)) and unwrap(self._name_relative_to_root) == name_relative_to_root", "result == self"] + _DR_SAME("_name_relative_to_root"),
+                 impl_of="BaseModuleSpecifier.with_base_module", properties=["C07", "C13"]))
+REG.add(Contract(f"{DR}.base_module_included_in_module_names", module=M_DR, kind="method", view="string", params=dict(self=DR), returns=DR,
+                 ensures=["result == self"], impl_of="BaseModuleSpecifier.base_module_included_in_module_names", properties=["C07", "C13"]))
+REG.add(Contract(f"{DR}._assert_required_configuration_present", module=M_DR, kind="method", view="string", params=dict(self=DR), returns="None",
+                 # C13: a diagram rule without a file never produces a verdict
+                 raises=[("ImproperlyConfigured", "is_none(self._file_path)")], properties=["C07", "C13"]))
+_PFX = lambda pd, p: [
+    f"forall(Str, lambda x: (x in result.all_modules) == exists(Str, lambda m: (m in {pd}.all_modules) and x == prefixed({p}, m)))",
+    f"forall(Str, lambda k: (k in result.dependencies) == exists(Str, lambda m: (m in {pd}.dependencies) and k == prefixed({p}, m)))",
+    f"forall(Str, Str, lambda m, x: implies(m in {pd}.dependencies, (x in result.dependencies[prefixed({p}, m)]) == "
+    f"exists(Str, lambda v: (v in {pd}.dependencies[m]) and x == prefixed({p}, v))))"]
+REG.add(Contract(f"{DR}._add_base_module_path", module=M_DR, kind="method", view="string", params=dict(self=DR, parsed_dependencies=PD), returns=PD, pure=True,
+                 # C07: with_base_module(p) == writing every component (declared, dependor, dependee) as p.name; without it the names stay as written
+                 ensures=_PFX("parsed_dependencies", "self._name_relative_to_root"), properties=["C07"]))
+_CONV = ("forall(Rule, lambda r: (r in result) == (exists(Node, lambda a: (a in dependencies.dependencies) and r == rule_pos(dependencies, a, self._should_only_rule)) or "
+         "exists(Node, lambda a: (a in dependencies.all_modules) and has_neg(dependencies, a) and r == rule_neg(dependencies, a))))")
+REG.add(Contract(f"{DR}._convert_to_rules", module=M_DR, kind="method", view="string", params=dict(self=DR, dependencies=PD), returns="Bag[Rule]",
+                 ensures=[_CONV], properties=["C07"]))
+_ERR = "exists(Rule, lambda r: (r in RULES) and ra_errors(applier_of(r), evaluable))"
+_VIOL = "exists(Rule, lambda r: (r in RULES) and ra_violated(applier_of(r), evaluable))"
+_DERR = "exists(Rule, lambda r: in_dr_rules(self, r) and ra_errors(applier_of(r), evaluable))"
+_DVIOL = "exists(Rule, lambda r: in_dr_rules(self, r) and ra_violated(applier_of(r), evaluable))"
+REG.add(Contract(f"{DR}._apply_rules", module=M_DR, kind="classmethod", view="string", params=dict(rule_appliers="Bag[Rule]", evaluable="Opaque[Evaluable]"), returns="None",
+                 # C07: ALL rules are evaluated; the aggregate fails iff some rule is violated; an erroring rule is never a verdict
+                 raises=[("RuleEvaluationError", _ERR.replace("RULES", "rule_appliers")),
+                         ("AssertionError", "(not " + _ERR.replace("RULES", "rule_appliers") + ") and " + _VIOL.replace("RULES", "rule_appliers"))],
+                 properties=["C07", "C13"]))
+# the rules a configured DiagramRule stands for: converted rules of the prefixed parse result of its file
+REG.macro("dr_pd", ["d"], "d._add_base_module_path(PumlParser().parse(unwrap(d._file_path)))")
+REG.macro("in_dr_rules", ["d", "r"], "exists(Node, lambda a: (a in dr_pd(d).dependencies) and r == rule_pos(dr_pd(d), a, d._should_only_rule)) or "
+          "exists(Node, lambda a: (a in dr_pd(d).all_modules) and has_neg(dr_pd(d), a) and r == rule_neg(dr_pd(d), a))")
+REG.macro("dr_file_ok", ["d"], "(not is_none(d._file_path)) and puml_tagged(puml_text(unwrap(d._file_path)))")
+REG.add(Contract(f"{DR}.assert_applies", module=M_DR, kind="method", view="string", params=dict(self=DR, evaluable="Opaque[Evaluable]"), returns="None",
+                 raises=[
+                     # C13: no file / no diagram between the tags -> configuration / parsing error, never a verdict (whether or not a base module was chosen)
+                     ("ImproperlyConfigured", "is_none(self._file_path)"),
+                     ("PumlParsingError", "(not is_none(self._file_path)) and not puml_tagged(puml_text(unwrap(self._file_path)))"),
+                     # C07: otherwise exactly the outcome of MultipleRuleApplier over the converted rules of the prefixed parse result
+                     ("RuleEvaluationError", "dr_file_ok(self) and " + _DERR),
+                     ("AssertionError", "dr_file_ok(self) and (not " + _DERR + ") and " + _DVIOL)],
+                 impl_of="RuleApplier.assert_applies", properties=["C07", "C13"]))
+REG.add(Contract(f"{PP}.parse", module=M_DP, kind="method", view="string", params=dict(self=PP, file_path="Opaque[Path]"), returns=PD, pure=True, status="assumed",
+                 raises=[("PumlParsingError", "not puml_tagged(puml_text(file_path))")]))
